@@ -9,6 +9,7 @@ import (
 	"regexp"
 	"runtime"
 	"strconv"
+	"strings"
 	"sync"
 	"sync/atomic"
 	"testing"
@@ -211,6 +212,15 @@ func (e *Evidence) Skip() {
 // replay file either way; for new violations the file name is stable so that
 // shrinking overwrites it and the last (minimal) one survives.
 func (e *Evidence) Report(v *Violation, c interface{}) bool {
+	// A scratch device that is full, or a process that ran out of descriptors
+	// or memory, makes calls fail that would otherwise succeed: trouble of the
+	// environment the check runs in, never a verdict about the code (no check
+	// injects these faults).
+	for _, sym := range []string{"no space left on device", "too many open files", "cannot allocate memory", "disk quota exceeded"} {
+		if strings.Contains(v.Detail, sym) || strings.Contains(v.Signature, sym) {
+			panic(infraError{fmt.Errorf("environment trouble, not a verdict: %s: %s", v.Signature, v.Detail)})
+		}
+	}
 	e.mu.Lock()
 	defer e.mu.Unlock()
 	v.Property = e.Property
